@@ -15,7 +15,8 @@ pub struct TagIteratorAsync<R: AsyncRead + Unpin, TSpec>
 {
     source: R,
     buffer: Box<[u8]>,
-    iterator: TagIterator<Cursor<Vec<u8>>, TSpec>
+    iterator: TagIterator<Cursor<Vec<u8>>, TSpec>,
+    source_exhausted: bool,
 }
 
 impl<R: AsyncRead + Unpin, TSpec> TagIteratorAsync<R, TSpec>
@@ -25,23 +26,38 @@ impl<R: AsyncRead + Unpin, TSpec> TagIteratorAsync<R, TSpec>
 
     pub fn new(source: R, tags_to_buffer: &[TSpec]) -> Self {
         let buffer = vec![0u8; 1024 * 64];
+        let mut iterator = TagIterator::new(Cursor::new(Vec::new()), tags_to_buffer);
+        // Running out of received data is not the end of the stream until the source says so
+        iterator.emit_master_end_when_eof(false);
         Self {
             source,
             buffer: buffer.into_boxed_slice(), 
-            iterator: TagIterator::new(Cursor::new(Vec::new()), tags_to_buffer)
+            iterator,
+            source_exhausted: false,
         }
     }
 
     pub async fn next(&mut self) -> Option<Result<TSpec, TagIteratorError>> {
-        match self.source.read(&mut self.buffer).await {
-            Ok(len) => {
-                self.iterator.get_mut().get_mut().append(&mut self.buffer[..len].to_vec());
-                self.iterator.next()
-            },
-            Err(e) => {
-                Some(Err(TagIteratorError::ReadError { source: e }))
+        loop {
+            // Emit whatever can be read from the data received so far; only when the next tag is incomplete is more data awaited
+            match self.iterator.next() {
+                None | Some(Err(TagIteratorError::UnexpectedEOF { .. })) if !self.source_exhausted => {},
+                item => return item,
             }
-        } 
+
+            match self.source.read(&mut self.buffer).await {
+                Ok(0) => {
+                    self.source_exhausted = true;
+                    self.iterator.emit_master_end_when_eof(true);
+                },
+                Ok(len) => {
+                    self.iterator.get_mut().get_mut().extend_from_slice(&self.buffer[..len]);
+                },
+                Err(e) => {
+                    return Some(Err(TagIteratorError::ReadError { source: e }));
+                }
+            }
+        }
     }
 
     pub fn into_stream(self) -> impl Stream<Item=Result<TSpec, TagIteratorError>> {
